@@ -138,7 +138,7 @@ def runDoh (method0 dv bh ras cas wh u rs impl : String) : Ans :=
           { model := model, verdict := verdict, tags := tags }
     | _, _, _, _ => { model := "bad-op", verdict := "skip" }
 
-def run (op impl : String) : Ans :=
+def runOne (op impl : String) : Ans :=
   match op.splitOn " " with
   | ["rsp", an, _ns, _ex, pl] =>
     match natList an with
@@ -147,5 +147,28 @@ def run (op impl : String) : Ans :=
   | ["doh", method0, dv, bh, ras, cas, wh, u] => runDoh method0 dv bh ras cas wh u "-" impl
   | ["doh", method0, dv, bh, ras, cas, wh, u, rs] => runDoh method0 dv bh ras cas wh u rs impl
   | _ => { model := "bad-op", verdict := "skip" }
+
+def knownClass (v : String) : Bool := v == "FAIL:second-opt" || v == "FAIL:oversize-accepted"
+
+/-- `bat a;b;c` with result `ra;rb;rc`: every request is judged on its own (conversion is a pure function of the
+    request); the verdict is the first unknown failure, else the first known one, else ok (skip if all skip). -/
+def runBatch (ops impls : List String) : Ans :=
+  let impls := impls ++ List.replicate (ops.length - impls.length) ""
+  let rs := (ops.zip impls).map fun p => runOne p.1 p.2
+  let vs := rs.map (·.verdict)
+  let verdict :=
+    match vs.find? (fun v => v.startsWith "FAIL" && !knownClass v) with
+    | some v => v
+    | none => match vs.find? (fun v => v.startsWith "FAIL") with
+      | some v => v
+      | none => if vs.all (· == "skip") then "skip" else "ok"
+  -- a sub-request outside the quantifier (skip) is not compared
+  let models := (rs.zip impls).map fun p => if p.1.verdict == "skip" then p.2 else p.1.model
+  { model := ";".intercalate models, verdict := verdict
+    tags := ["batch"] ++ (rs.flatMap (·.tags)).eraseDups }
+
+def run (op impl : String) : Ans :=
+  if op.startsWith "bat " then runBatch ((op.drop 4).toString.splitOn ";") (impl.splitOn ";")
+  else runOne op impl
 
 end BfeVerif.C56
